@@ -21,6 +21,7 @@
 #include <covfie/core/backend/transformer/shuffle.hpp>
 #include <covfie/core/backend/transformer/strided.hpp>
 #include <covfie/core/field.hpp>
+#include <algorithm>
 #include <cstdint>
 #include <cstring>
 #include <iostream>
@@ -230,9 +231,41 @@ struct AppendBuf : std::streambuf {
   int_type overflow(int_type ch) override { if (ch != traits_type::eof()) data.push_back(static_cast<char>(ch)); return ch; }
   std::streamsize xsputn(const char * s, std::streamsize n) override { data.append(s, static_cast<std::size_t>(n)); return n; }
 };
-// the dump of a field; written once into a string stream and once into a non-seekable stream: the bytes do not depend on the sink
+// the two ends of one byte channel: a buffering writer whose sync() hands the bytes over, and a reader on the same bytes.
+// The reader's stream is tied to the writer's (`in.tie(&out)`, as cin is to cout): an unformatted read flushes the writer first.
+struct Channel { std::string bytes; std::size_t rd = 0; };
+struct ChanOut : std::streambuf {
+  Channel & c; char buf[509];
+  explicit ChanOut(Channel & ch) : c(ch) { setp(buf, buf + sizeof buf); }
+  void hand() { c.bytes.append(pbase(), static_cast<std::size_t>(pptr() - pbase())); setp(buf, buf + sizeof buf); }
+  int_type overflow(int_type ch) override { hand(); if (ch != traits_type::eof()) { *pptr() = static_cast<char>(ch); pbump(1); } return traits_type::not_eof(ch); }
+  int sync() override { hand(); return 0; }
+};
+struct ChanIn : std::streambuf {
+  Channel & c; char buf[251];
+  explicit ChanIn(Channel & ch) : c(ch) { setg(buf, buf, buf); }
+  int_type underflow() override {
+    if (gptr() < egptr()) return traits_type::to_int_type(*gptr());
+    std::size_t n = std::min(sizeof buf, c.bytes.size() - c.rd);
+    if (n == 0) return traits_type::eof();
+    std::memcpy(buf, c.bytes.data() + c.rd, n); c.rd += n; setg(buf, buf, buf + n);
+    return traits_type::to_int_type(*gptr());
+  }
+};
+// the dump of a field; written once into a string stream and once into a non-seekable stream: the bytes do not depend on the sink;
+// and once into the buffering end of a channel, from whose tied reading end the field is loaded without an explicit flush
 template <typename F> std::string dumpOf(const F & f) {
   std::ostringstream os; f.dump(os);
+  {
+    Channel ch; ChanOut ob(ch); ChanIn ib(ch); std::ostream out(&ob); std::istream in(&ib); in.tie(&out);
+    std::string again; bool bad = false;
+    try { f.dump(out); F g(in); std::ostringstream o2; g.dump(o2); again = o2.str(); }
+    catch (const std::exception & e) { bad = true; std::cerr << "Assertion `load from the reading end of a tied channel succeeds' failed: " << e.what() << std::endl; }
+    if (bad || again != os.str()) {
+      if (!bad) std::cerr << "Assertion `load from a tied channel yields the dumped field' failed" << std::endl;
+      std::abort();
+    }
+  }
   AppendBuf ab; std::ostream ns(&ab);
   bool threw = false;
   try { f.dump(ns); } catch (const std::exception & e) { threw = true; std::cerr << "Assertion `dump into a non-seekable stream succeeds' failed: " << e.what() << std::endl; }
